@@ -9,6 +9,7 @@ import (
 	"os/exec"
 	"path/filepath"
 	"reflect"
+	"regexp"
 	"runtime"
 	"sort"
 	"strconv"
@@ -22,7 +23,6 @@ import (
 	"github.com/yandex/pandora/core/warmup"
 	"go.uber.org/zap"
 	"verifharness/c11lib"
-	"verifharness/c20lib"
 	"verifharness/drv"
 )
 
@@ -64,10 +64,10 @@ func runAlias(kv map[string]string) string {
 	defer t.stop()
 	y := poolYAML(kind, addr, kv, 2, map[string]any{"type": "once", "times": 1})
 	setupMu.Lock()
-	m, err := c20lib.NewManual(y, 2)
+	m, err := c11lib.NewManual(y, 2)
 	setupMu.Unlock()
 	if err != nil {
-		return "setup=" + c20lib.Enc(c20lib.Trunc(err.Error(), 200))
+		return "setup=" + c11lib.Enc(c11lib.Trunc(err.Error(), 200))
 	}
 	defer m.Close()
 	a1, ok1, h1 := m.Acquire(5 * time.Second)
@@ -201,10 +201,10 @@ func runGuns(kv map[string]string) string {
 	defer t.stop()
 	y := poolYAML(kind, addr, kv, n, map[string]any{"type": "once", "times": 40 * n})
 	setupMu.Lock()
-	conf, err := c20lib.DecodePool(y)
+	conf, err := c11lib.DecodePool(y)
 	setupMu.Unlock()
 	if err != nil {
-		return "setup=" + c20lib.Enc(c20lib.Trunc(err.Error(), 200))
+		return "setup=" + c11lib.Enc(c11lib.Trunc(err.Error(), 200))
 	}
 	p := &probe{objs: map[uintptr]bool{}}
 	inner := conf.Engine.Pools[0].NewGun
@@ -220,15 +220,15 @@ func runGuns(kv map[string]string) string {
 		p.mu.Unlock()
 		return &probeGun{p: p, inner: g, goros: map[string]bool{}}, nil
 	}
-	conf.Engine.Pools[0].Aggregator = &c20lib.Aggr{}
-	eng := engine.New(zap.NewNop(), c20lib.NewMetrics(), conf.Engine)
+	conf.Engine.Pools[0].Aggregator = &c11lib.Aggr{}
+	eng := engine.New(zap.NewNop(), c11lib.NewMetrics(), conf.Engine)
 	ctx, cancel := context.WithTimeout(context.Background(), 60*time.Second)
 	defer cancel()
 	err = eng.Run(ctx)
 	eng.Wait()
 	res := "-"
 	if err != nil {
-		res = "err:" + c20lib.Enc(c20lib.Trunc(err.Error(), 100))
+		res = "err:" + c11lib.Enc(c11lib.Trunc(err.Error(), 100))
 	}
 	p.mu.Lock()
 	defer p.mu.Unlock()
@@ -238,6 +238,8 @@ func runGuns(kv map[string]string) string {
 // ---------------------------------------------------------------- mode=race (child process)
 
 const childEnv = "VERIF_C11_CHILD"
+
+var phoutDest = regexp.MustCompile(`destination: (\S+)`)
 
 func runRaceInProc(kv map[string]string) string {
 	kind := kv["kind"]
@@ -249,9 +251,19 @@ func runRaceInProc(kv map[string]string) string {
 	}
 	defer t.stop()
 	y := poolYAML(kind, addr, kv, n, map[string]any{"type": "once", "times": k})
-	aggr := &c20lib.Aggr{}
-	res := c20lib.RunEngine(y, aggr, 60*time.Second)
-	return fmt.Sprintf("run=%s served=%s samples=%s", orDash(res), pos(t.served()), pos(int64(len(aggr.Samples()))))
+	if kv["agg"] == "phout" {
+		res := c11lib.RunEngine(y, nil, 60*time.Second)
+		var size int64
+		if m := phoutDest.FindStringSubmatch(y); m != nil {
+			if st, err := c11lib.FS.Stat(m[1]); err == nil {
+				size = st.Size()
+			}
+		}
+		return fmt.Sprintf("run=%s served=%s samples=%s", orDash(res), pos(t.served()), pos(size))
+	}
+	aggr := &c11lib.Aggr{}
+	res := c11lib.RunEngine(y, aggr, 60*time.Second)
+	return fmt.Sprintf("run=%s served=%s samples=%s", orDash(res), pos(t.served()), pos(aggr.Count()))
 }
 
 func childMain() bool {
@@ -380,11 +392,11 @@ func runChild(input string) (obs, fatal, races, detector, bad string) {
 	// random source used by two goroutines) kills the child
 	for _, mark := range []string{"fatal error:", "\npanic:"} {
 		if i := strings.Index("\n"+text, mark); i >= 0 && fatal == "-" {
-			fatal = c20lib.Enc(c20lib.Trunc(strings.TrimSpace(strings.SplitN(("\n" + text)[i+len(mark):], "\n", 2)[0]), 80))
+			fatal = c11lib.Enc(c11lib.Trunc(strings.TrimSpace(strings.SplitN(("\n" + text)[i+len(mark):], "\n", 2)[0]), 80))
 		}
 	}
 	if obs == "" && fatal == "-" {
-		return "", fatal, races, detector, "CHILD-FAILED " + c20lib.Enc(c20lib.Trunc(text, 200))
+		return "", fatal, races, detector, "CHILD-FAILED " + c11lib.Enc(c11lib.Trunc(text, 200))
 	}
 	if obs == "" {
 		obs = "run=died"
@@ -504,6 +516,9 @@ func class(input, obs string) string {
 	if kv["sc"] != "" && kv["sc"] != "0" {
 		c += "/shared-client"
 	}
+	if kv["agg"] != "" {
+		c += "/" + kv["agg"]
+	}
 	return c
 }
 
@@ -528,12 +543,10 @@ func gen(r *rand.Rand, tier string) []string {
 	for _, o := range hammerObjs {
 		out = append(out, fmt.Sprintf("mode=hammer obj=%s n=8 calls=%d", o, 1500+r.Intn(1000)))
 	}
-	reps := 1
 	if tier == "thorough" {
-		reps = 4
-		for i := 0; i < 3; i++ {
+		for i := 0; i < 8; i++ {
 			for _, o := range hammerObjs {
-				out = append(out, fmt.Sprintf("mode=hammer obj=%s n=%d calls=%d", o, 2+r.Intn(15), 1000+r.Intn(4000)))
+				out = append(out, fmt.Sprintf("mode=hammer obj=%s n=%d calls=%d", o, 2+r.Intn(15), 1000+r.Intn(6000)))
 			}
 		}
 		for _, k := range kinds {
@@ -542,14 +555,39 @@ func gen(r *rand.Rand, tier string) []string {
 			}
 		}
 	}
-	for i := 0; i < reps; i++ {
-		for _, k := range kinds {
-			out = append(out, fmt.Sprintf("mode=race kind=%s n=8 shots=%d", k, 200+r.Intn(200)))
-			switch k {
-			case "uri", "httpjson":
-				out = append(out, fmt.Sprintf("mode=race kind=%s n=8 shots=%d pre=1", k, 200+r.Intn(200)))
-			case "grpcjson":
-				out = append(out, fmt.Sprintf("mode=race kind=%s n=8 shots=%d sc=2", k, 200+r.Intn(200)))
+	raceCase := func(k string, n, lo, span int, extra string) string {
+		return fmt.Sprintf("mode=race kind=%s n=%d shots=%d%s", k, n, lo+r.Intn(span), extra)
+	}
+	for _, k := range kinds {
+		out = append(out, raceCase(k, 8, 200, 200, ""))
+		if k == "uri" || k == "grpcscen" || k == "httpscen" {
+			out = append(out, raceCase(k, 8, 200, 200, " agg=phout"))
+		}
+		switch k {
+		case "uri", "httpjson":
+			out = append(out, raceCase(k, 8, 200, 200, " pre=1"))
+		case "grpcjson":
+			out = append(out, raceCase(k, 8, 200, 200, " sc=2"))
+		}
+	}
+	if tier == "thorough" {
+		for i := 0; i < 10; i++ {
+			for _, k := range kinds {
+				n := 2 + r.Intn(15)
+				agg := ""
+				if r.Intn(2) == 0 {
+					agg = " agg=phout"
+				}
+				out = append(out, raceCase(k, n, 300, 1200, agg))
+				switch k {
+				case "uri", "uripost", "raw", "httpjson":
+					out = append(out, raceCase(k, n, 300, 600, " pre=1"))
+					if k == "uri" {
+						out = append(out, raceCase(k, n, 300, 600, fmt.Sprintf(" sc=%d", 1+r.Intn(3))))
+					}
+				case "grpcjson":
+					out = append(out, raceCase(k, n, 300, 600, fmt.Sprintf(" sc=%d", 1+r.Intn(3))))
+				}
 			}
 		}
 	}
